@@ -27,6 +27,10 @@ def maybe_history(rng, spec, prob=0.3, reload_prob=0.15):
         k = rng.choice([None, None, rng.randint(0, 8), rng.randint(1, 15)])
         flags = rng.choice([(True, True), (True, True), (False, False), (True, False), (False, True)])
         spec["history"] = {"k": k, "state": flags[0], "log": flags[1], "reload": rng.random() < reload_prob}
+        if rng.random() < 0.3:
+            spec["history"]["first_absence"] = gen.gen_absence(rng, 12, rng.randint(1, 5))  # the first call had other absence steps
+        if rng.random() < 0.2:
+            spec["history"]["interleave"] = True  # a second project built from the same model (same IDs) runs in between
     return spec
 
 
@@ -202,6 +206,11 @@ def history_candidates(spec):
             c = dict(spec)
             c["history"] = dict(h, reload=False)
             yield c
+        for k_ in ("first_absence", "interleave"):
+            if h.get(k_):
+                c = dict(spec)
+                c["history"] = {a_: b_ for a_, b_ in h.items() if a_ != k_}
+                yield c
         if (h["state"], h["log"]) != (True, True):
             c = dict(spec)
             c["history"] = dict(h, state=True, log=True)
@@ -282,7 +291,12 @@ def run_forward(spec, **kw):
     cfg1 = dict(spec["cfg"])
     if hist.get("k") is not None:
         cfg1["max_time"] = hist["k"]
+    if hist.get("first_absence") is not None:
+        cfg1["absence"] = list(hist["first_absence"])
     rec1, out1 = scen.simulate(p, cfg1, want_snap=False)
+    if hist.get("interleave"):
+        other = B.build(pre_edit_model(spec["model"], ops) if ops else spec["model"], spec.get("ranks"))
+        scen.simulate(other.project, spec["cfg"], want_snap=False)
     tr.first_out = out1
     if out1.ok and hist.get("reload"):
         ow = D.call(lambda: p.write_simple_json("mem:inplace.json"))
@@ -347,6 +361,10 @@ def base_result(tr):
         res.count("history.state%d_log%d%s" % (int(h["state"]), int(h["log"]), ".reload" if h.get("reload") else ""))
         if h.get("org_edit"):
             res.count("history.organisation_edited_between_calls")
+        if h.get("first_absence") is not None:
+            res.count("history.first_call_with_other_absence_list")
+        if h.get("interleave"):
+            res.count("history.other_project_of_same_model_in_between")
     if getattr(tr, "restored_from_json", False):
         res.count("model_restored_from_json")
     res.count("steps", tr.rec.n_recorded)
